@@ -321,6 +321,37 @@ fn main() {
             }
         }
         res.cov("host_closes_between_requests", hostclose_n);
+        // family: the host's own Date header is far off the proxy's clock (an unsynchronised host, a cached answer): the
+        // date the proxy stamps on later requests is still the proxy's current time
+        let mut skew_n = 0u64;
+        for route in ["signed", "nokey"] {
+            w.set_key(if route == "nokey" { None } else { Some(K1) });
+            for (clabel, rec, hidx, elevated) in &callers {
+                for host_date in ["Thu, 01 Jan 2015 00:00:00 GMT", "Fri, 01 Jan 2100 00:00:00 GMT", "not a date"] {
+                    let host = w.hosts.all()[*hidx];
+                    let hd = host_date.to_string();
+                    host.set_responder(std::sync::Arc::new(move |_m: &Msg, _c, _i| Action::Reply(vec![simple_response(200, &[("Date", hd.as_str())], b"ok")])));
+                    for step in 0..3usize {
+                        let hv: Vec<(&str, &[u8])> = vec![("Host", b"metadata"), ("Metadata", b"true")];
+                        let raw = build_request("GET", "/metadata/instance?api-version=2021-02-01", &hv, None, None);
+                        let s = send_one(&w, next_port(), rec, *hidx, &raw);
+                        evals += 1;
+                        skew_n += 1;
+                        let case = json!({"family": "host-date-skew", "route": route, "caller": clabel, "host_date_header": host_date, "request": step + 1});
+                        nontrivial.insert(case.to_string());
+                        if s.status != Ok(200) || s.at_host.len() != 1 {
+                            res.violation("not-relayed", &format!("authorized request not relayed exactly once: status {:?}, {} requests at host", s.status, s.at_host.len()), case.clone());
+                            continue;
+                        }
+                        relayed += 1;
+                        let sent_names: Vec<String> = hv.iter().map(|h| h.0.to_lowercase()).collect();
+                        judge(&mut res, &s.at_host[0], *elevated, s.t_before, s.t_after, route == "signed", &[], &sent_names, &case);
+                    }
+                    host.set_responder(std::sync::Arc::new(|_m: &Msg, _c, _i| Action::Reply(vec![simple_response(200, &[], b"ok")])));
+                }
+            }
+        }
+        res.cov("host_date_skew_requests", skew_n);
         // date stays current over time (thorough only: needs > 60 s of real time)
         if thorough {
             w.set_key(Some(K1));
@@ -358,7 +389,7 @@ fn main() {
         }
         res.cov(
             "rule",
-            format!("full product: copies of each of the three proxy-owned header names in {{0,1,2}}^3 x 3 spellings (alternating between copies) x {{plausible, garbage}} values x {{elevated caller -> WireServer, non-elevated -> IMDS}} x routes {{signed, signature-exempt upload, no key latched}}{}; each request on a fresh attributed connection; + Connection / Proxy-Connection headers nominating the proxy-owned names (4 values x with/without client copies x signed/no key x 2 callers); + chunked requests whose trailer section carries fields named like the proxy-owned headers (3 routes x 2 callers x declared/undeclared x 2 spellings); + 3 requests on one kept-alive connection while the host closes its side after every answer (later requests carry client copies; whatever reaches the host is judged); non-trivial = at least one client-supplied copy", if thorough { " + requests at wall-clock offsets 0/1/60/120/180/300 s (consecutive gaps 1, 59, 60, 60, 120 s) for the date header" } else { " (quick: garbage values only with lower-case spelling)" }),
+            format!("full product: copies of each of the three proxy-owned header names in {{0,1,2}}^3 x 3 spellings (alternating between copies) x {{plausible, garbage}} values x {{elevated caller -> WireServer, non-elevated -> IMDS}} x routes {{signed, signature-exempt upload, no key latched}}{}; each request on a fresh attributed connection; + Connection / Proxy-Connection headers nominating the proxy-owned names (4 values x with/without client copies x signed/no key x 2 callers); + chunked requests whose trailer section carries fields named like the proxy-owned headers (3 routes x 2 callers x declared/undeclared x 2 spellings); + 3 consecutive requests while the host's own Date header is decades off (past, future, garbage); + 3 requests on one kept-alive connection while the host closes its side after every answer (later requests carry client copies; whatever reaches the host is judged); non-trivial = at least one client-supplied copy", if thorough { " + requests at wall-clock offsets 0/1/60/120/180/300 s (consecutive gaps 1, 59, 60, 60, 120 s) for the date header" } else { " (quick: garbage values only with lower-case spelling)" }),
         );
     } else {
         // ---------------- C04 end to end ----------------
@@ -372,6 +403,7 @@ fn main() {
             vec![("Content-Type", b"application/json"), ("Accept", b"*/*"), ("User-Agent", b"curl/8.0")],
             vec![("x-ms-version", b"2012-11-30"), ("x-ms-client-request-id", b"0000")],
             vec![("Expect", b"100-continue")],
+            vec![("x-ms-azure-host-authorization", b"Azure-HMAC-SHA256 aaaaaaaa-1111-1111-1111-111111111111 0000000000000000000000000000000000000000000000000000000000000000")],
         ];
         let big = vec![b'z'; 1000];
         let bodies: Vec<(Option<&[u8]>, Option<&[usize]>)> = vec![(None, None), (Some(b"x"), None), (Some(&big), None), (Some(&big), Some(&[7, 300])), (Some(b""), None)];
